@@ -102,7 +102,7 @@ def wl_reloc(tier, seed):
                 ("l2", l2_batch(seed + 3, 4, nops=80, base=60), dict(per_tlc=1, tlc_jobs=4))]
     return [("bfs_q", [], dict(bfs=gen.bfs_spec("q", idbase=901 * IDSTEP), max_states=100000, edges_per_file=4000, tlc_jobs=12, match_cfg="MCStore_q.cfg")),
             ("bfs_w16k", [], dict(bfs=gen.bfs_spec("w16k_q", idbase=900 * IDSTEP), max_states=100000, edges_per_file=1200, tlc_jobs=12, match_cfg="MCStore_w16k_q.cfg")),
-            ("bfs_w16k3", [], dict(bfs=gen.bfs_spec("w16k_t", idbase=902 * IDSTEP), max_states=40000, edges_per_file=3000, tlc_jobs=12, match_cfg="MCStore_w16k_t.cfg")),
+            ("bfs_w16k3", [], dict(bfs=gen.bfs_spec("w16k_t", idbase=902 * IDSTEP), max_states=15000, edges_per_file=3000, tlc_jobs=12, match_cfg="MCStore_w16k_t.cfg")),
             ("bfs_w2m", [], dict(bfs=gen.bfs_spec("w2m_q", idbase=903 * IDSTEP), max_states=3000, edges_per_file=800, tlc_jobs=12, xmx="6g")),
             ("reloc", reloc_batch(seed, 40, 400, base=300), dict(per_tlc=2, tlc_jobs=8)),
             ("reloc2m", reloc_batch(seed + 7, 8, 300, base=400, width=2097152 + 4096), dict(per_tlc=1, tlc_jobs=8)),
